@@ -1,6 +1,10 @@
 package drivers
 
 import (
+	logging "github.com/ipfs/go-log/v2"
+	proxy "github.com/evstack/ev-node/da/jsonrpc"
+	coreda "github.com/evstack/ev-node/core/da"
+	"strings"
 	"context"
 	"errors"
 	"fmt"
@@ -42,6 +46,11 @@ func newSubRun(c *Ctx, run string, ih uint64, limit uint64, cfg world.F) *subRun
 	w := world.NewWorld(c.Tr, ih, world.T0)
 	n := w.NewNode(world.NodeOpts{Name: "seq", Aggregator: true, MaxPending: limit, DABlockTime: daBlockTime, BlockTime: 100 * time.Millisecond, MempoolTTL: 2})
 	subRunCount++
+	if subRunCount%3 == 0 {
+		// every third run: the node reaches the DA double through the JSON-RPC client's own logic (size filter,
+		// error translation) with a small blob-size limit; errors lose their identity as on the wire
+		n.DAOverride = proxiedDA(w.DA, 700)
+	}
 	if subRunCount%2 == 0 && n.KV != nil {
 		n.KV.Yield = 4 // every other run: durable writes are scheduling points (the other loops run in between)
 	}
@@ -445,7 +454,7 @@ func RunSubmitScenarios(c *Ctx) {
 					fuseBudget := 2
 					for i := 0; i < n; i++ {
 						for j := rng.Intn(3); j >= 0; j-- {
-							k := []string{"none", "a", "a", "b", "none"}[rng.Intn(5)]
+							k := []string{"none", "a", "a", "b", "none", "BIG-" + strings.Repeat("x", 300)}[rng.Intn(6)]
 							s.produce(k)
 						}
 						for j := rng.Intn(3); j > 0; j-- {
@@ -476,4 +485,48 @@ func RunSubmitScenarios(c *Ctx) {
 			}
 		}
 	}
+}
+
+// proxiedDA puts the real JSON-RPC client (da/jsonrpc API: client-side size filter, error handling) in front
+// of the DA double without a network: the RPC stubs call the double directly and flatten its errors to their
+// message, which is all that crosses the wire.
+func proxiedDA(d *world.DADouble, maxBlob uint64) coreda.DA {
+	api := &proxy.API{Logger: logging.Logger("verif-proxied-da"), MaxBlobSize: maxBlob}
+	flat := func(err error) error {
+		if err == nil {
+			return nil
+		}
+		return errors.New(err.Error())
+	}
+	api.Internal.Get = func(ctx context.Context, ids []coreda.ID, ns []byte) ([]coreda.Blob, error) {
+		r, err := d.Get(ctx, ids, ns)
+		return r, flat(err)
+	}
+	api.Internal.GetIDs = func(ctx context.Context, h uint64, ns []byte) (*coreda.GetIDsResult, error) {
+		r, err := d.GetIDs(ctx, h, ns)
+		return r, flat(err)
+	}
+	api.Internal.GetProofs = func(ctx context.Context, ids []coreda.ID, ns []byte) ([]coreda.Proof, error) {
+		r, err := d.GetProofs(ctx, ids, ns)
+		return r, flat(err)
+	}
+	api.Internal.Commit = func(ctx context.Context, blobs []coreda.Blob, ns []byte) ([]coreda.Commitment, error) {
+		r, err := d.Commit(ctx, blobs, ns)
+		return r, flat(err)
+	}
+	api.Internal.Validate = func(ctx context.Context, ids []coreda.ID, proofs []coreda.Proof, ns []byte) ([]bool, error) {
+		r, err := d.Validate(ctx, ids, proofs, ns)
+		return r, flat(err)
+	}
+	api.Internal.Submit = func(ctx context.Context, blobs []coreda.Blob, gp float64, ns []byte) ([]coreda.ID, error) {
+		r, err := d.Submit(ctx, blobs, gp, ns)
+		return r, flat(err)
+	}
+	api.Internal.SubmitWithOptions = func(ctx context.Context, blobs []coreda.Blob, gp float64, ns []byte, opts []byte) ([]coreda.ID, error) {
+		r, err := d.SubmitWithOptions(ctx, blobs, gp, ns, opts)
+		return r, flat(err)
+	}
+	api.Internal.GasMultiplier = func(ctx context.Context) (float64, error) { return d.GasMultiplier(ctx) }
+	api.Internal.GasPrice = func(ctx context.Context) (float64, error) { return d.GasPrice(ctx) }
+	return api
 }
